@@ -84,6 +84,36 @@ def model_check_loop(res, tier, invs, power):
             raise Undecided("MODEL-DRIFT: Wal.tla (loop mode, power loss) violates %s" % r["violated"])
 
 
+def apalache_inductive(res):
+    """Unbounded part (design level): Apalache discharges the inductive invariant of WalCore.tla - Init => IndInv and
+    IndInv /\ Next => IndInv' for every bound of 1..12 transaction groups and any number of checkpoints, truncations,
+    power failures and recoveries - and finds the counterexample for each named deviation.  Never decides a violation."""
+    import subprocess, tempfile
+    out = {}
+    d = os.path.join(vlib.scratch(), "apalache")
+    os.makedirs(d, exist_ok=True)
+    shutil.copy(os.path.join(vlib.SPEC, "WalCore.tla"), d)
+    def run(cinit, init, length):
+        try:
+            p = subprocess.run(["apalache-mc", "check", "--cinit=" + cinit, "--init=" + init, "--inv=IndInv", "--length=%d" % length, "WalCore.tla"],
+                               cwd=d, stdout=subprocess.PIPE, stderr=subprocess.STDOUT, text=True, timeout=900)
+        except (subprocess.TimeoutExpired, FileNotFoundError) as ex:
+            return "not-run: %s" % type(ex).__name__
+        if "The outcome is: NoError" in p.stdout:
+            return "NoError"
+        if "The outcome is: Error" in p.stdout:
+            return "Error"
+        return "not-run: " + p.stdout[-200:]
+    out["Init => IndInv (length 0)"] = run("ConstInit", "Init", 0)
+    out["IndInv /\\ Next => IndInv' (length 1)"] = run("ConstInit", "IndInit", 1)
+    for dev in ("CkptWithoutSync", "PrepCountsAsDone", "TruncateEarly"):
+        out["deviation %s breaks the step (expected Error)" % dev] = run("ConstInit" + dev, "IndInit", 1)
+    shutil.rmtree(d, ignore_errors=True)
+    res.cov["apalache_inductive_invariant_WalCore"] = out
+    if out["Init => IndInv (length 0)"] == "Error" or out["IndInv /\\ Next => IndInv' (length 1)"] == "Error":
+        raise Undecided("MODEL-DRIFT: WalCore.tla's inductive invariant is not inductive")
+
+
 def run_c05(tier):
     res = Result("C05", tier)
     rng = random.Random(vlib.seed() * 7368787 + 5)
@@ -152,6 +182,8 @@ def run_c05(tier):
             if jd["bad"]["C01"]:
                 res.violation("%s: acknowledged transactions not all visible after recovery: %s" % (where, "; ".join(jd["bad"]["C01"][:4])), replay)
     res.cov["crash_images"] = nimg
+    if not quick:
+        apalache_inductive(res)
     for x in runs[:2]:
         res.sample({"script": x["script"], "concretisation": x["conc"].describe(), "syscall_events": len(x["events"]), "abstract_events": len(x["ab"])})
     res.assumptions += ["one client; the real SyncWAL goroutine runs with walRefresh 1-3 ms, primaryRefresh 3-8 ms, rotate interval 1-3",
